@@ -233,6 +233,28 @@ def rule_fresh_view(ctx, repo):
             ctx.check(ok, "C15.fresh", "DAE.write_npz/chunk-read#%d" % k, "the chunk is cut from a view refreshed in this call",
                       "`%s` reads the cached ts.txyz without an unrestricted ts.unpack() before it: when the attribute already exists (resumed "
                       "run, or a restricted unpack) the rows in memory are not the rows written" % src(g.data(rd)["ast"]), w.W(rd))
+    # the dataframe views are cached attributes too: unpack() either rebuilds them or drops them (so that __getattr__ rebuilds them)
+    ts_u = F.method(repo, "DAETimeSeries", "unpack", DAE)
+    ts_d = F.method(repo, "DAETimeSeries", "unpack_df", DAE)
+    dfs = sorted({dotted(t)[5:] for st in walk_noscope(ts_d.fn) if isinstance(st, ast.Assign) for t in st.targets
+                  if (dotted(t) or "").startswith("self.df")})
+    if not dfs:
+        ctx.undecided("C15.fresh", "DAETimeSeries.unpack/dataframes", "cached dataframe attributes not recognised", ts_d.W())
+    else:
+        gu = ts_u.g
+        rebuild = ts_u.calls("self.unpack_df")
+        dropped = set()
+        for st in ast.walk(ts_u.fn):
+            if isinstance(st, ast.For) and isinstance(st.iter, (ast.Tuple, ast.List)) and any(
+                    isinstance(c, ast.Call) and (dotted(c.func) or "").endswith("__dict__.pop") for c in ast.walk(st)):
+                dropped |= {e.value for e in st.iter.elts if isinstance(e, ast.Constant)}
+            if isinstance(st, ast.Delete):
+                dropped |= {dotted(t)[5:] for t in st.targets if (dotted(t) or "").startswith("self.")}
+        always = bool(rebuild) and gu.must_pass(gu.entry, gu.exit, rebuild)[0]
+        missing = [d_ for d_ in dfs if d_ not in dropped]
+        ctx.check(always or not missing, "C15.fresh", "DAETimeSeries.unpack/dataframes", "cached dataframes (%s) rebuilt or dropped by every unpack()" % ", ".join(dfs),
+                  "unpack(df=False) refreshes the arrays and leaves the cached dataframe(s) %s untouched: after a resumed run or an off-load "
+                  "`ts.df`, `ts.df_xy` ... still show the rows of the earlier unpack" % ", ".join(missing), ts_u.W())
     # csv export: one index list for header and body
     e = F.method(repo, "TDSData", "export_csv", PLOT)
     ge = e.g
@@ -300,7 +322,7 @@ def rule_replay(ctx, repo):
 
 
 def run(ctx):
-    ctx.rule("C15.fresh", "cached views are refreshed by their readers on the off-load path; header and body share the index list", 3)
+    ctx.rule("C15.fresh", "cached views are refreshed by their readers on the off-load path / dropped by unpack(); header and body share the index list", 4)
     ctx.rule("C15.replay", "csv replay: row pointer and clock advance together at every calc_h call site", 3)
     ctx.rule("C15.order", "channel order t,x,y,z agrees at writer/reader sites (unpack, lst, npz, plot loader, csv replay)", 11)
     ctx.rule("C15.copy", "stored rows are fresh arrays keyed by a float copy of t; channels paired", 4)
